@@ -159,6 +159,64 @@ impl Group for Head {
     }
 }
 
+/// `url_crawl::get_urls` (the link scanner run over served HTML for HTTP/2 push) on markup fragments
+pub struct Crawl;
+const CRAWL_TOKENS: [&str; 22] = ["<img", " src=", "\"", "'", "`", "/a.js", "ab", ">", "<link", " href=", " rel=\"stylesheet\"", "background-image: url(", ")", " ", "/", "//x", "\n", "é", "=", "loading=\"lazy\"", "<", "{}"];
+impl Group for Crawl {
+    fn name(&self) -> &'static str {
+        "c02.crawl"
+    }
+    fn rule(&self) -> &'static str {
+        "url_crawl::get_urls under catch_unwind on EVERY sequence of up to 4 (quick) / 5 (thorough) tokens from a 22-token markup alphabet (tag openers, src=/href= attributes, the three quote characters, paths, rel=stylesheet, css url(, separators, a non-ASCII character, newline, braces) and on random longer sequences — in particular quotes that are never closed and documents that end inside an attribute; the list of urls compared with the model (every unchecked slice is a panic value there); oracle: no panic, every url is a substring of the input; non-trivial = at least one url"
+    }
+    fn generate(&self, ctx: &Ctx, rng: &mut Rng) -> Vec<String> {
+        let depth = if ctx.mode == Mode::Quick { 4 } else { 5 };
+        let mut v = vec![format!("c02.crawl {}", hex(b"<img src=\"abcd")), format!("c02.crawl {}", hex(b"<img src=\"abcd\"")), format!("c02.crawl {}", hex(b"<img src='"))];
+        let mut idx = vec![0usize; 0];
+        // all token sequences of length 1..=depth
+        fn rec(depth: usize, cur: &mut Vec<usize>, out: &mut Vec<String>) {
+            if !cur.is_empty() {
+                let s: String = cur.iter().map(|i| CRAWL_TOKENS[*i]).collect();
+                out.push(format!("c02.crawl {}", hex(s.as_bytes())));
+            }
+            if cur.len() == depth { return; }
+            for i in 0..CRAWL_TOKENS.len() { cur.push(i); rec(depth, cur, out); cur.pop(); }
+        }
+        rec(depth, &mut idx, &mut v);
+        let n = if ctx.mode == Mode::Quick { 3000 } else { 60_000 };
+        for _ in 0..n {
+            let k = rng.range(3, 14);
+            let s: String = (0..k).map(|_| *rng.pick(&CRAWL_TOKENS)).collect();
+            v.push(format!("c02.crawl {}", hex(s.as_bytes())));
+        }
+        v
+    }
+    fn run_impl(&self, _ctx: &Ctx, line: &str) -> String {
+        let b = unhex(line.split(' ').nth(1).unwrap()).unwrap();
+        let html = String::from_utf8(b).unwrap();
+        let urls: Vec<String> = url_crawl::get_urls(&html).map(|u| hex(u.as_bytes())).collect();
+        format!("ok {}", list(urls))
+    }
+    fn oracle(&self, _ctx: &Ctx, line: &str, out: &str) -> Option<(String, String)> {
+        if out == "panic" {
+            return Some((format!("panic:{line}"), "url_crawl::get_urls panicked".into()));
+        }
+        let h = line.split(' ').nth(1).unwrap();
+        for u in out.strip_prefix("ok ").and_then(parse_list).unwrap_or_default() {
+            if !h.contains(&u) {
+                return Some((format!("substring:{line}"), format!("the url {u} is not part of the document")));
+            }
+        }
+        None
+    }
+    fn nontrivial(&self, _l: &str, o: &str) -> bool {
+        o != "ok []"
+    }
+    fn classify(&self, _l: &str, o: &str) -> String {
+        if o == "ok []" { "no-urls".into() } else if o == "panic" { "panic".into() } else { "urls".into() }
+    }
+}
+
 // ---------------------------------------------------------------------------------------------------------------
 static PANICS: AtomicUsize = AtomicUsize::new(0);
 static PANIC_MSGS: Mutex<Vec<String>> = Mutex::new(Vec::new());
